@@ -1224,6 +1224,29 @@ def S_chunk_by(ex, n, a):
     return IterV(g())
 
 
+def M_range(ex, n, a):
+    """BTreeMap::range(lo..hi | lo.. | ..hi | ..): entries in key order whose key lies in the range (forks on symbolic comparisons)"""
+    m = recv(a)
+    if not isinstance(m, MapV) or not m.ordered or not isinstance(a[1], Agg): return NotImplemented
+    rng = a[1]; nm = rng.name or ''
+    lo = hi = None
+    if nm.endswith('RangeFull'): pass
+    elif nm.endswith('RangeFrom'): lo = rng.fields[0]
+    elif nm.endswith('RangeTo'): hi = rng.fields[0]
+    elif nm.endswith('Range'): lo, hi = rng.fields[0], rng.fields[1]
+    else: return NotImplemented
+    def g():
+        for k, c in map_order(ex, m):
+            if lo is not None:
+                lt, eq = values_lt_eq(ex, k, deref_all(lo))
+                if ex.branch(lt): continue
+            if hi is not None:
+                lt, eq = values_lt_eq(ex, k, deref_all(hi))
+                if not ex.branch(lt): continue
+            yield tup(Ref(Cell(k)), Ref(c))
+    return IterV(g())
+
+
 def S_chunks(ex, n, a):
     """<[T]>::chunks(n): consecutive sub-slices of n elements (the last one shorter); n must be concrete"""
     v = recv(a)
@@ -1742,7 +1765,7 @@ METHODS = {
     'zip': [I_zip], 'chain': [I_chain], 'rev': [I_rev], 'take': [O_take], 'skip': [I_skip], 'cloned': [O_cloned], 'copied': [O_copied], 'peekable': [I_peekable], 'by_ref': [I_by_ref],
     'fold': [I_fold], 'for_each': [I_for_each], 'count': [I_count], 'sum': [I_sum], 'all': [B_all], 'any': [B_any], 'find': [I_find], 'find_map': [I_find_map], 'position': [I_position],
     'nth': [I_nth], 'max_by_key': [I_max_by_key], 'min_by_key': [I_min_by_key], 'max': [I_max, C_max], 'min': [I_min, C_min], 'max_by': [I_max_by], 'min_by': [I_min_by],
-    'chunk_by': [S_chunk_by], 'chunks': [S_chunks], 'unzip': [I_unzip], 'collect': [I_collect], 'from_iter': [I_collect], 'extend': [I_extend],
+    'chunk_by': [S_chunk_by], 'chunks': [S_chunks], 'range': [M_range], 'unzip': [I_unzip], 'collect': [I_collect], 'from_iter': [I_collect], 'extend': [I_extend],
     'unwrap': [O_unwrap], 'expect': [O_expect], 'unwrap_err': [O_unwrap_err], 'is_some': [O_is_some], 'is_none': [O_is_none], 'is_ok': [O_is_ok], 'is_err': [O_is_err],
     'as_ref': [O_as_ref], 'as_mut': [O_as_mut], 'as_deref': [O_as_deref], 'as_deref_mut': [O_as_deref], 'replace': [O_replace],
     'branch': [T_branch], 'from_residual': [T_from_residual],
